@@ -91,6 +91,7 @@ def engine_capture():
         lg.propagate = False
         sl = logging.getLogger("kmip.server.session")
         sl.propagate = False
+        sl.addHandler(logging.NullHandler())
         # sqlalchemy/other noise off
         logging.getLogger("kmip").addHandler(logging.NullHandler())
     return _engine_capture
